@@ -117,8 +117,41 @@ struct Case {
     rate: Option<u8>,
     t0: u64,
     bars: Vec<(u64, u64)>,         // (clock at creation, initial length)
+    /// calls made while the (stand-alone) bar is still on ProgressDrawTarget::hidden(); if `late`,
+    /// the target is created and attached with set_draw_target at `t0`, after these calls
+    pre: Vec<(u64, usize, Op)>,
+    late: bool,
     ops: Vec<(u64, usize, Op)>,    // (absolute clock, bar index, op)
     tag: String,
+}
+
+impl Case {
+    fn all_ops(&self) -> impl Iterator<Item = &(u64, usize, Op)> {
+        self.pre.iter().chain(self.ops.iter())
+    }
+    /// the property's quantifier: non-decreasing call instants, none before the creation of the
+    /// bars (all calls) or of the target (calls after it exists)
+    fn monotone(&self) -> bool {
+        let tb = self.bars.iter().map(|b| b.0).max().unwrap();
+        let mut prev = tb;
+        for (t, _, _) in self.pre.iter() {
+            if *t < prev {
+                return false;
+            }
+            prev = *t;
+        }
+        prev = prev.max(self.t0);
+        if self.late && self.pre.iter().any(|x| x.0 > self.t0) {
+            return false;
+        }
+        for (t, _, _) in self.ops.iter() {
+            if *t < prev {
+                return false;
+            }
+            prev = *t;
+        }
+        true
+    }
 }
 
 /// one painted row: position, length, message, prefix (the Coq model keeps the first three)
@@ -148,24 +181,28 @@ fn interval_ns(rate: u8) -> u64 {
 }
 
 fn describe(c: &Case) -> String {
-    let mut prev = c.t0;
-    let ops: Vec<String> = c
-        .ops
-        .iter()
-        .map(|(t, i, o)| {
-            let g = t - prev;
-            prev = *t;
-            format!("+{g}:b{i}.{}", o.coq())
-        })
-        .collect();
+    let rel = |t: u64, base: u64| if t >= base { format!("+{}", t - base) } else { format!("-{}", base - t) };
+    let fmt_ops = |ops: &[(u64, usize, Op)], start: u64| -> String {
+        let mut prev = start;
+        ops.iter()
+            .map(|(t, i, o)| {
+                let g = rel(*t, prev);
+                prev = *t;
+                format!("{g}:b{i}.{}", o.coq())
+            })
+            .collect::<Vec<_>>()
+            .join(" ")
+    };
+    let pre = if c.late { format!(" hidden-until-t0 pre=[{}]", fmt_ops(&c.pre, c.bars[0].0)) } else { String::new() };
     format!(
-        "{} multi={} rate={:?} t0={} bars=[{}] ops=[{}]",
+        "{} multi={} rate={:?} t0={} bars=[{}]{} ops=[{}]",
         c.tag,
         c.multi,
         c.rate,
         c.t0,
-        c.bars.iter().map(|(t, l)| format!("+{}:len{}", t - c.t0, l)).collect::<Vec<_>>().join(","),
-        ops.join(" ")
+        c.bars.iter().map(|(t, l)| format!("{}:len{}", rel(*t, c.t0), l)).collect::<Vec<_>>().join(","),
+        pre,
+        fmt_ops(&c.ops, c.t0)
     )
 }
 
@@ -175,10 +212,13 @@ fn run_impl(c: &Case) -> (Vec<Result<Obs, String>>, Vec<String>) {
     set_auto_step_ns(0);
     set_clock_ns(c.t0);
     let spy = Spy::new(80, 24);
-    let target = match c.rate {
+    // the target's limiter reads the clock when the target is created: now (t0), or - late attach -
+    // after the calls `pre`, again at t0
+    let mk_target = |spy: &Spy| match c.rate {
         Some(r) => ProgressDrawTarget::term_like_with_hz(Box::new(spy.clone()), r),
         None => ProgressDrawTarget::term_like(Box::new(spy.clone())),
     };
+    let target = if c.late { ProgressDrawTarget::hidden() } else { mk_target(&spy) };
     let mut counters = vec![];
     let mut pbs = vec![];
     let mk_style = |cnt: &Counter| {
@@ -218,7 +258,18 @@ fn run_impl(c: &Case) -> (Vec<Result<Obs, String>>, Vec<String>) {
         problems.push("terminal output during construction".to_string());
     }
     let mut out = vec![];
-    for (k, (t, i, o)) in c.ops.iter().enumerate() {
+    for (k, (t, i, o)) in c.all_ops().enumerate() {
+        if c.late && k == c.pre.len() {
+            // ProgressBar::set_draw_target: the new target is created at t0, the bar keeps its state
+            set_clock_ns(c.t0);
+            let r = catch(|| pbs[0].set_draw_target(mk_target(&spy)));
+            if let Err(e) = r {
+                problems.push(format!("set_draw_target panicked: {e}"));
+            }
+            if !spy.take().is_empty() {
+                problems.push("terminal output during set_draw_target".to_string());
+            }
+        }
         set_clock_ns(*t);
         let before: Vec<(u64, u64)> = counters
             .iter()
@@ -312,7 +363,14 @@ fn oracle(s: &mut Session, c: &Case, obs: &[Result<Obs, String>], problems: &[St
     let mut d27_in_case = false;
     let mut multi_stale_in_case = false;
     let stale_limit = c.rate.map(|r| interval_ns(r) + MS);
-    for (k, ((t, i, o), ob)) in c.ops.iter().zip(obs.iter()).enumerate() {
+    // The timing clauses (window bounds, liveness, staleness) are stated for the property's
+    // quantifier: non-decreasing call instants.  The `step-back` stream sets the clock backwards to
+    // drive the early exits `now < prev` / `now < start` of the two `allow` functions through the
+    // correspondence; for such a history the oracle checks what does not depend on time: no
+    // panic, the protocol, and the content of whatever is painted.
+    let timed = c.monotone();
+    let npre = if c.late { c.pre.len() } else { 0 };
+    for (k, ((t, i, o), ob)) in c.all_ops().zip(obs.iter()).enumerate() {
         let ob = match ob {
             Ok(ob) => ob,
             Err(e) => {
@@ -333,7 +391,8 @@ fn oracle(s: &mut Session, c: &Case, obs: &[Result<Obs, String>], problems: &[St
         }
         let arrives = if o.via_pos_limiter() {
             // position limiter: liveness
-            if let Some(u) = last_ev[i] {
+            if !timed {
+            } else if let Some(u) = last_ev[i] {
                 if t - u >= MS && !ob.reached {
                     s.fail(
                         "pos-liveness",
@@ -358,12 +417,22 @@ fn oracle(s: &mut Session, c: &Case, obs: &[Result<Obs, String>], problems: &[St
             }
             true
         };
+        if k < npre {
+            // the bar is still on a hidden target: nothing can be painted, whatever the call
+            if ob.frame.is_some() {
+                s.fail("protocol", format!("call #{k}: frame painted while the bar is on a hidden target"), desc.to_string());
+            }
+            if arrives {
+                shown[i] = Some(live[i]);
+            }
+            continue;
+        }
         if !arrives {
             if ob.frame.is_some() {
                 s.fail("protocol", format!("call #{k}: frame painted for a throttled position update"), desc.to_string());
             }
             pos_refused[i] = true;
-            if c.multi {
+            if c.multi && timed {
                 multi_stale(s, c, k, t, i, stale_limit, last_paint, &good, &stale27, &had_row, &mut multi_stale_in_case, &mut d27_in_case, d27_reported, desc);
             }
             continue;
@@ -373,7 +442,8 @@ fn oracle(s: &mut Session, c: &Case, obs: &[Result<Obs, String>], problems: &[St
         let painted = ob.frame.is_some();
         reqs.push((t, painted));
         // liveness of the target limiter
-        if let Some(r) = c.rate {
+        if !timed {
+        } else if let Some(r) = c.rate {
             match last_paint {
                 Some(f) => {
                     if (t - f) as u128 * r as u128 >= NS as u128 && !painted {
@@ -465,9 +535,13 @@ fn oracle(s: &mut Session, c: &Case, obs: &[Result<Obs, String>], problems: &[St
                 }
             }
         }
-        if c.multi {
+        if c.multi && timed {
             multi_stale(s, c, k, t, i, stale_limit, last_paint, &good, &stale27, &had_row, &mut multi_stale_in_case, &mut d27_in_case, d27_reported, desc);
         }
+    }
+    if !timed {
+        s.count("oracle:untimed-history");
+        return;
     }
     // window bound of the target limiter: every window [t_i, t_j]
     if let Some(r) = c.rate {
@@ -490,10 +564,17 @@ fn oracle(s: &mut Session, c: &Case, obs: &[Result<Obs, String>], problems: &[St
         // younger than one refresh interval + 1 ms
         if !c.multi {
             let mut lastp: Option<u64> = None;
-            for ((t, _, _), ob) in c.ops.iter().zip(obs.iter()) {
+            for ((t, _, _), ob) in c.ops.iter().zip(obs.iter().skip(npre)) {
                 let ob = ob.as_ref().unwrap();
                 if ob.frame.is_some() {
                     lastp = Some(*t);
+                }
+                // a target attached late (set_draw_target) to a bar that was already driven: the
+                // bar's own position limiter may swallow the updates of the first millisecond
+                // (C05_frame_age_late_target_partial / _refuted); no claim there
+                if c.late && *t < c.t0 + MS {
+                    s.count("stale:late-target-first-ms-waived");
+                    continue;
                 }
                 match lastp {
                     Some(f) if *t - f < interval_ns(r) + MS => {}
@@ -607,7 +688,9 @@ fn coq_case(c: &Case, obs: &[Result<Obs, String>]) -> String {
         c.t0,
         clist(c.bars.iter().map(|(t, l)| format!("({t}, {l})")))
     );
-    let ops = clist(c.ops.iter().map(|(t, i, o)| format!("({t}, {i}, {})", o.coq())));
+    let fmt = |ops: &[(u64, usize, Op)]| clist(ops.iter().map(|(t, i, o)| format!("({t}, {i}, {})", o.coq())));
+    let pre = if c.late { fmt(&c.pre) } else { "[]".to_string() };
+    let ops = fmt(&c.ops);
     let outs = clist(obs.iter().map(|o| match o {
         Err(_) => "Panic 0".to_string(),
         Ok(ob) => format!(
@@ -616,7 +699,7 @@ fn coq_case(c: &Case, obs: &[Result<Obs, String>]) -> String {
             copt(ob.frame.as_ref().map(|f| clist(f.iter().map(|(a, b, c, _)| format!("({a}, {b}, {c})")))))
         ),
     }));
-    format!("({cfg}, {ops}, {outs})")
+    format!("({cfg}, {pre}, {ops}, {outs})")
 }
 
 fn gap_class(g: u64, iv: u64) -> &'static str {
@@ -653,9 +736,13 @@ fn run_case(s: &mut Session, c: &Case, d27_reported: &mut u64) {
     oracle(s, c, &obs, &problems, &desc, d27_reported);
     // input / outcome distribution
     let iv = c.rate.map(interval_ns).unwrap_or(MS);
-    let mut prev = c.t0;
-    for ((t, _, o), ob) in c.ops.iter().zip(obs.iter()) {
-        s.count(&format!("gap:{}", gap_class(t - prev, iv)));
+    let mut prev = c.t0.min(c.bars.iter().map(|b| b.0).min().unwrap());
+    for ((t, _, o), ob) in c.all_ops().zip(obs.iter()) {
+        if *t < prev {
+            s.count("gap:negative(clock-set-back)");
+        } else {
+            s.count(&format!("gap:{}", gap_class(t - prev, iv)));
+        }
         prev = *t;
         s.count(&format!("op:{}", o.name()));
         if let Ok(ob) = ob {
@@ -675,7 +762,16 @@ fn run_case(s: &mut Session, c: &Case, d27_reported: &mut u64) {
     if let Some(r) = c.rate {
         s.count(&format!("rate:{:03}-{:03}", r / 32 * 32, r / 32 * 32 + 31));
     }
-    s.count(&format!("calls:{:03}+", c.ops.len().min(399) / 50 * 50));
+    s.count(&format!("calls:{:03}+", (c.pre.len() + c.ops.len()).min(399) / 50 * 50));
+    if c.late {
+        s.count("stream:late-target(set_draw_target)");
+    }
+    if !c.monotone() {
+        s.count("stream:step-back(non-monotone)");
+    }
+    if c.bars.iter().any(|b| b.0 < c.t0) {
+        s.count("cfg:t0>tb(target-younger-than-a-bar)");
+    }
     let painted = obs.iter().filter(|o| matches!(o, Ok(ob) if ob.frame.is_some())).count();
     let skipped = obs.len() - painted;
     // non-trivial: the case shows both verdicts
@@ -745,10 +841,17 @@ fn gen_case(r: &mut Rng, rate: Option<u8>, multi: bool, tag: &str) -> Case {
     let iv = rate.map(interval_ns).unwrap_or(MS);
     let t0 = ORIGIN_NS + r.below(1000) * r.below(NS);
     let nb = if multi { r.range(1, 3) as usize } else { 1 };
+    // in a quarter of the cases the bars (some of them) are OLDER than the target (t0 > tb): the mock
+    // clock is simply set back for their creation
+    let older = r.chance(1, 4);
     let bars: Vec<(u64, u64)> = (0..nb)
-        .map(|_| (t0 + *r.pick(&[0u64, 0, 1, MS - 1, MS, 5 * MS + 7, NS]), *r.pick(&[0u64, 10, 1000, u64::MAX])))
+        .map(|_| {
+            let off = *r.pick(&[0u64, 0, 1, MS - 1, MS, 5 * MS + 7, NS]);
+            let tb = if older && r.chance(2, 3) { t0 - off } else { t0 + off };
+            (tb, *r.pick(&[0u64, 10, 1000, u64::MAX]))
+        })
         .collect();
-    let mut now = bars.iter().map(|b| b.0).max().unwrap();
+    let mut now = bars.iter().map(|b| b.0).max().unwrap().max(t0);
     // op style: 0 = ticks only (pure target limiter), 1 = inc(1) only (continuous update), 2 = mixed
     let style = if rate.is_some() { *r.pick(&[0u64, 0, 0, 1, 2, 2, 2]) } else { *r.pick(&[1u64, 1, 2, 2, 2]) };
     // time pattern
@@ -811,7 +914,73 @@ fn gen_case(r: &mut Rng, rate: Option<u8>, multi: bool, tag: &str) -> Case {
         now += g;
         ops.push((now, r.below(nb as u64) as usize, gen_op(r, style)));
     }
-    Case { multi, rate, t0, bars, ops, tag: tag.to_string() }
+    Case { multi, rate, t0, bars, pre: vec![], late: false, ops, tag: tag.to_string() }
+}
+
+/// stream `late-target`: a stand-alone bar is driven on a hidden target (bursts that drain its own
+/// position limiter, mixed calls), then a throttled target is attached with set_draw_target at an
+/// instant up to a few ms after the last of these calls, then an ordinary history follows
+fn gen_late_case(r: &mut Rng, rate: u8) -> Case {
+    let mut c = gen_case(r, Some(rate), false, "late-target");
+    let base = c.bars[0].0.max(c.t0);
+    let tb = c.bars[0].0.min(c.t0);
+    let mut now = tb;
+    let mut pre = vec![];
+    let npre = *r.pick(&[0u64, 3, 11, 12, 25, 40]);
+    let style = *r.pick(&[1u64, 1, 2]);
+    for _ in 0..npre {
+        now += match r.below(8) {
+            0..=3 => 0,
+            4 => 1,
+            5 => r.below(MS),
+            6 => *r.pick(&[MS - 1, MS, MS + 1]),
+            _ => r.below(3 * MS),
+        };
+        pre.push((now, 0, gen_op(r, style)));
+    }
+    let t_attach = now + *r.pick(&[0u64, 0, 1, MS / 2, MS - 1, MS, MS + 1, 5 * MS]);
+    for op in c.ops.iter_mut() {
+        op.0 = t_attach + (op.0 - base);
+    }
+    c.t0 = t_attach;
+    c.bars[0].0 = tb;
+    c.pre = pre;
+    c.late = true;
+    c
+}
+
+/// stream `step-back`: an ordinary history in which some calls are made with the mock clock set
+/// BACKWARDS - a little (before the limiter's `prev`: early exit of RateLimiter::allow), before the
+/// creation of the called bar (early exit of AtomicPosition::allow) or before the creation of the
+/// target -, after which the clock either returns to where it was or continues from there
+fn gen_step_back_case(r: &mut Rng, rate: Option<u8>, multi: bool) -> Case {
+    let mut c = gen_case(r, rate, multi, "step-back");
+    let iv = rate.map(interval_ns).unwrap_or(MS);
+    let mut shift: u64 = 0; // permanent backward shift accumulated so far
+    let mut any = false;
+    let n = c.ops.len();
+    for k in 0..n {
+        let (t, i, _) = c.ops[k].clone();
+        let mut t2 = t - shift.min(t - 1);
+        if r.chance(1, 7) || (k + 1 == n && !any) {
+            any = true;
+            let back = match r.below(6) {
+                0 => 1,
+                1 => r.range(1, iv),
+                2 => r.range(1, 3 * iv),
+                3 => t2.saturating_sub(c.bars[i].0) + 1 + r.below(1000), // before the bar's creation
+                4 => t2.saturating_sub(c.t0) + 1 + r.below(1000),        // before the target's creation
+                _ => r.range(1, MS),
+            }
+            .min(t2 - 1);
+            t2 -= back;
+            if r.chance(1, 3) {
+                shift += back;
+            }
+        }
+        c.ops[k].0 = t2;
+    }
+    c
 }
 
 fn corpus() -> Vec<Case> {
@@ -829,6 +998,8 @@ fn corpus() -> Vec<Case> {
         t0,
         bars: vec![(t0, 100), (t0, 100)],
         ops: (0..11).map(|_| (t0 + 5, 0, Op::Inc(1))).chain([(t0 + 6, 1, Op::Tick)]).collect(),
+        pre: vec![],
+        late: false,
         tag: "corpus:D27-member-stale-after-throttled-inc".into(),
     });
     // the audit's witness (docs/audit-parts/C05.md section 4): twelve inc on member 1, then a tick
@@ -839,6 +1010,8 @@ fn corpus() -> Vec<Case> {
         t0,
         bars: vec![(t0, 10), (t0, 10)],
         ops: (0..12).map(|_| (t0, 1, Op::Inc(1))).chain([(t0 + 30 * NS, 0, Op::Tick)]).collect(),
+        pre: vec![],
+        late: false,
         tag: "corpus:D27-audit-witness-30s".into(),
     });
     // D27 seen by the staleness oracle: A goes out of sync at +10 ns; B drains the bucket at 1.5 s
@@ -857,6 +1030,8 @@ fn corpus() -> Vec<Case> {
             .chain((0..11).map(|_| (t0 + 1_500_000_000, 1, Op::Tick)))
             .chain([(t0 + 1_900_000_000, 0, Op::Tick), (t0 + 2 * NS, 1, Op::Tick)])
             .collect(),
+        pre: vec![],
+        late: false,
         tag: "corpus:D27-stale-at-call".into(),
     });
     // a member that asks for its first frame while the bucket is empty appears with the next painted
@@ -871,7 +1046,77 @@ fn corpus() -> Vec<Case> {
             .map(|k| (t0 + k, 1, Op::Tick))
             .chain([(t0 + 30, 0, Op::SetMsg(5)), (t0 + 35, 0, Op::SetPrefix(9)), (t0 + 40, 0, Op::Inc(2)), (t0 + NS / 2, 1, Op::Tick), (t0 + NS / 2 + 1, 0, Op::Tick)])
             .collect(),
+        pre: vec![],
+        late: false,
         tag: "corpus:multi-first-row-waits-for-a-token".into(),
+    });
+    // finding 25 of docs/AUDIT3.md = C05_frame_age_late_target_refuted / C05_nonvacuous_late_target:
+    // ten inc at 0.4 ms on the hidden target drain the bar's position limiter, a 1 Hz target is
+    // attached at 0.5 ms; the inc at 0.5 and 0.9 ms are swallowed by the bar's own limiter (no frame
+    // although the target's bucket is full), the one at 1.5 ms is painted
+    v.push(Case {
+        multi: false,
+        rate: Some(1),
+        t0: t0 + 500_000,
+        bars: vec![(t0, 100)],
+        pre: (0..10).map(|_| (t0 + 400_000, 0, Op::Inc(1))).collect(),
+        late: true,
+        ops: vec![(t0 + 500_000, 0, Op::Inc(1)), (t0 + 900_000, 0, Op::Inc(1)), (t0 + 1_500_000, 0, Op::Inc(1))],
+        tag: "corpus:late-target-drained-position-limiter".into(),
+    });
+    // the clock set backwards (finding 26): a tick 1 ns before the limiter's `prev` (early exit
+    // `now < prev` of RateLimiter::allow, nothing painted although the bucket is full), an inc
+    // before the bar's creation (early exit `now < start` of AtomicPosition::allow: no tracker
+    // tick), then forwards again
+    v.push(Case {
+        multi: false,
+        rate: Some(20),
+        t0: t0 + 10,
+        bars: vec![(t0 + 20, 100)],
+        pre: vec![],
+        late: false,
+        ops: vec![
+            (t0 + 30, 0, Op::Tick),
+            (t0 + 9, 0, Op::Tick),
+            (t0 + 19, 0, Op::Inc(1)),
+            (t0 + 5, 0, Op::SetMsg(3)),
+            (t0 + 40, 0, Op::Inc(1)),
+            (t0 + 29, 0, Op::Tick),
+        ],
+        tag: "corpus:clock-set-back-early-exits".into(),
+    });
+    // shape of seeded C05-5: a bar sitting exactly at pos == len under repeated tick / set_message
+    // (stand-alone and as a MultiProgress member): 300 requests within 300 microseconds at 1 Hz
+    for multi in [false, true] {
+        v.push(Case {
+            multi,
+            rate: Some(1),
+            t0,
+            bars: if multi { vec![(t0, 7), (t0, 9)] } else { vec![(t0, 7)] },
+            pre: vec![],
+            late: false,
+            ops: std::iter::once((t0 + 1, 0, Op::SetPos(7)))
+                .chain((0..300).map(|k| (t0 + 2 + k * 1000, 0, if k % 2 == 0 { Op::Tick } else { Op::SetMsg(k) })))
+                .collect(),
+            tag: format!("corpus:bar-at-pos-eq-len-{}", if multi { "member" } else { "standalone" }),
+        });
+    }
+    // shape of seeded C05-6: reset() between bursts of position updates on an unthrottled target -
+    // 40 batches of reset + 15 inc within 20 microseconds each, 50 microseconds apart
+    v.push(Case {
+        multi: false,
+        rate: None,
+        t0,
+        bars: vec![(t0, 1000)],
+        pre: vec![],
+        late: false,
+        ops: (0..40u64)
+            .flat_map(|b| {
+                std::iter::once((t0 + 100 + b * 50_000, 0, Op::Reset))
+                    .chain((0..15u64).map(move |k| (t0 + 101 + b * 50_000 + k * 1000, 0, Op::Inc(1))))
+            })
+            .collect(),
+        tag: "corpus:reset-between-bursts".into(),
     });
     // D12 (fixed by e4a1051): 20 Hz, full bucket; 21 requests 1 ns before the second token
     // matures and one when it does: the old code painted all 22 within 1 ns (a request that met a
@@ -884,6 +1129,8 @@ fn corpus() -> Vec<Case> {
         ops: ticks(
             std::iter::repeat(t0 + 100_000_000 - 1).take(21).chain([t0 + 100_000_000, t0 + 100_000_000]).collect(),
         ),
+        pre: vec![],
+        late: false,
         tag: "corpus:D12-burst-22-in-1ns".into(),
     });
     // the same from a fresh bucket: 23 requests within 1 microsecond
@@ -893,6 +1140,8 @@ fn corpus() -> Vec<Case> {
         t0,
         bars: vec![(t0, 100)],
         ops: ticks((0..23).map(|k| t0 + 40 * k).collect()),
+        pre: vec![],
+        late: false,
         tag: "corpus:burst-from-new".into(),
     });
     // D13 (fixed by 3894c8b): 255 Hz, one request every 3 ms (the old interval) for 1.2 s
@@ -902,6 +1151,8 @@ fn corpus() -> Vec<Case> {
         t0,
         bars: vec![(t0, 100)],
         ops: ticks((0..400).map(|k| t0 + 3 * MS * k).collect()),
+        pre: vec![],
+        late: false,
         tag: "corpus:D13-255Hz-every-3ms".into(),
     });
     // D13 at 3 Hz: every 333 ms (old interval) for 100 s
@@ -911,6 +1162,8 @@ fn corpus() -> Vec<Case> {
         t0,
         bars: vec![(t0, 100)],
         ops: ticks((0..300).map(|k| t0 + 333 * MS * k).collect()),
+        pre: vec![],
+        late: false,
         tag: "corpus:D13-3Hz-every-333ms".into(),
     });
     // D12 on the position limiter (unthrottled target): 11 inc 1 ns before the second token
@@ -925,6 +1178,8 @@ fn corpus() -> Vec<Case> {
             .chain([t0 + 2 * MS, t0 + 2 * MS])
             .map(|t| (t, 0, Op::Inc(1)))
             .collect(),
+        pre: vec![],
+        late: false,
         tag: "corpus:D12-pos-burst-12-in-1ns".into(),
     });
     // position limiter: carried token, then reset() in the middle of a drained bucket
@@ -938,6 +1193,8 @@ fn corpus() -> Vec<Case> {
             .chain(std::iter::once((t0 + 2 * MS - 5, 0, Op::Reset)))
             .chain((0..3).map(|k| (t0 + 2 * MS + 10 + k * (MS / 2), 0, Op::Inc(1))))
             .collect(),
+        pre: vec![],
+        late: false,
         tag: "corpus:pos-carried-token-reset".into(),
     });
     // exact liveness boundary at every "awkward" rate: drain, then I-1 / I after the last frame
@@ -956,6 +1213,8 @@ fn corpus() -> Vec<Case> {
             t0,
             bars: vec![(t0, 100)],
             ops: ticks(ts),
+            pre: vec![],
+            late: false,
             tag: format!("corpus:liveness-boundary-{r}Hz"),
         });
     }
@@ -966,6 +1225,8 @@ fn corpus() -> Vec<Case> {
         t0,
         bars: vec![(t0, 10), (t0, 20), (t0 + 1, 30)],
         ops: (0..40).map(|k| (t0 + 2 + k * 1000, (k % 3) as usize, Op::Inc(1))).collect(),
+        pre: vec![],
+        late: false,
         tag: "corpus:multi-burst".into(),
     });
     // skipped draws lose nothing: message/length/position changed while throttled, next frame shows them
@@ -986,6 +1247,8 @@ fn corpus() -> Vec<Case> {
                 (t0 + NS, 0, Op::Tick),
             ])
             .collect(),
+        pre: vec![],
+        late: false,
         tag: "corpus:nothing-lost".into(),
     });
     v
@@ -1017,9 +1280,9 @@ fn quick_rates(r: &mut Rng) -> Vec<u8> {
 fn main() {
     let a = args();
     let header = "From IndModel Require Import Base Limiter.\nOpen Scope N_scope.\n";
-    let mut s = Session::new(&a, "C05", header, "(syscfg * list (N * N * bop) * list sout)%type", "c05_check");
+    let mut s = Session::new(&a, "C05", header, "(syscfg * list (N * N * bop) * list (N * N * bop) * list sout)%type", "c05_check");
     s.shard_size = 60;
-    s.rule = "call histories (1..150 calls of tick/inc/dec/set_position/set_message/set_length/set_prefix/reset at chosen mock-clock instants; gaps from the alphabet {0,1ns,I-1,I,I+1,kI-1,kI,kI+1,1h} for I = the refresh interval and I = 1 ms, mixed with random gaps; burst/sustained/drain-refill patterns) on a stand-alone bar over term_like_with_hz(R) (quick: 24 refresh rates per run = 15 fixed awkward ones + one drawn from each of the 8 strata 1-31, 32-63, .., 224-255 + one more, all from the seed; thorough/extended: every R in 1..=255), an unthrottled term_like target, or 1..3 members of a MultiProgress over term_like_with_hz(R); observed per call: tracker tick notification (position limiter verdict) and flush + painted rows pos/len/msg/prefix (target limiter verdict, frame content); non-trivial = at least one painted and one skipped call; distinct = distinct case text".into();
+    s.rule = "call histories (1..150 calls of tick/inc/dec/set_position/set_message/set_length/set_prefix/reset at chosen mock-clock instants; gaps from the alphabet {0,1ns,I-1,I,I+1,kI-1,kI,kI+1,1h} for I = the refresh interval and I = 1 ms, mixed with random gaps; burst/sustained/drain-refill patterns) on a stand-alone bar over term_like_with_hz(R) (quick: 24 refresh rates per run = 15 fixed awkward ones + one drawn from each of the 8 strata 1-31, 32-63, .., 224-255 + one more, all from the seed; thorough/extended: every R in 1..=255), an unthrottled term_like target, or 1..3 members of a MultiProgress over term_like_with_hz(R); observed per call: tracker tick notification (position limiter verdict) and flush + painted rows pos/len/msg/prefix (target limiter verdict, frame content); two further streams: late-target (a stand-alone bar is first driven on a hidden target, then a throttled target is attached with set_draw_target: t0 > tb, position limiter not fresh) and step-back (the mock clock is set backwards for some calls: the early exits `now < prev` / `now < start`; timing clauses of the oracle off for these histories); in a quarter of all cases bars are older than the target; non-trivial = at least one painted and one skipped call; distinct = distinct case text".into();
     let mut r = Rng::new(a.seed);
     let mut d27_reported = 0u64;
     for c in corpus() {
@@ -1034,6 +1297,19 @@ fn main() {
             let c = gen_case(&mut r, Some(rate), multi, "gen");
             run_case(&mut s, &c, &mut d27_reported);
         }
+    }
+    // stream late-target (set_draw_target after calls on a hidden target) and stream step-back
+    // (non-monotone instants); rates from the same stratified list
+    let (n_late, n_back): (usize, usize) = if a.thorough { (255, 255) } else if a.extended { (600, 600) } else { (48, 48) };
+    for k in 0..n_late {
+        let rate = rates[k % rates.len()];
+        let c = gen_late_case(&mut r, rate);
+        run_case(&mut s, &c, &mut d27_reported);
+    }
+    for k in 0..n_back {
+        let rate = if k % 6 == 5 { None } else { Some(rates[(k * 7) % rates.len()]) };
+        let c = gen_step_back_case(&mut r, rate, k % 3 == 2);
+        run_case(&mut s, &c, &mut d27_reported);
     }
     // unthrottled target: the position limiter alone
     let n_free = if a.thorough { 600 } else if a.extended { 1500 } else { 200 };
